@@ -112,11 +112,43 @@ _FSC = "acryo._utils:fourier_shell_correlation"
 _c.result = lambda interp, bound: (fresh_array("freq", 1, "real", path=interp.path), fresh_array("fsc", 1, "real", path=interp.path))
 _c.call_ensures = ["frequencies"]
 _AS = _C.REGISTRY["acryo.loader._base:LoaderBase.average_split"]
-_AS.result = lambda interp, bound: fresh_array("halves", 5, "real", shape=(bound["n_set"], 2) + tuple(bound["output_shape"]))
+def _halves_result(interp, bound):
+    h = fresh_array("halves", 5, "real", shape=(bound["n_set"], 2) + tuple(bound["output_shape"]))
+    h._ghost_initial = h.copy()          # ghost: the half averages as average_split returned them
+    return h
+
+
+def as_returned(arr):
+    """ghost: the content of a call result at the time it was returned (callers may update the array in place)"""
+    return getattr(arr, "_ghost_initial", arr)
+
+
+_AS.result = _halves_result
 _AS.call_ensures = []
 
 
-@contract("acryo.loader._base:LoaderBase.fsc_with_halfmaps", props=["C17"])
+_REPLAY_HALFMAPS = '''
+import numpy as np
+from acryo import SubtomogramLoader, Molecules
+rng = np.random.default_rng(2)
+tomo = rng.normal(size=(40, 40, 40)).astype(np.float32) + 3.0
+pos = rng.uniform(12, 28, size=(9, 3))
+ld = SubtomogramLoader(tomo, Molecules(pos), order=1, scale=1.0, output_shape=(8, 8, 8))
+zz, yy, xx = np.indices((8, 8, 8))
+mask = np.exp(-((zz - 3.5) ** 2 + (yy - 3.5) ** 2 + (xx - 3.5) ** 2) / 8.0).astype(np.float32)     # soft mask
+ok = True
+for n_set in (1, 2):
+    want = ld.average_split(n_set=n_set, seed=4, squeeze=False, output_shape=(8, 8, 8))
+    res = ld.fsc_with_halfmaps(mask, seed=4, n_set=n_set, squeeze=False, zero_norm=False)
+    e0 = float(np.abs(res.halfmaps[0] - want[:, 0]).max()); e1 = float(np.abs(res.halfmaps[1] - want[:, 1]).max())
+    print("n_set", n_set, ": max |returned half-map - half average| =", round(e0, 5), round(e1, 5))
+    ok = ok and e0 < 1e-4 and e1 < 1e-4
+print("clause holds natively (the returned half-maps are the plain half averages):", ok)
+print("CONFIRMED" if not ok else "NOT-CONFIRMED"); sys.exit(1 if not ok else 0)
+'''
+
+
+@contract("acryo.loader._base:LoaderBase.fsc_with_halfmaps", props=["C17", "C09"])
 class fsc_with_halfmaps:
     """loader-level FSC: for every set i the two half-maps of average_split(n_set, seed) (optionally mean-subtracted),
     each multiplied by the mask, are correlated shell-wise with width dfreq (default 1.5 / min(shape)); the split
@@ -126,6 +158,9 @@ class fsc_with_halfmaps:
                   squeeze=T.Const(False))
     requires = ["dfreq is None or dfreq > 0"]
     imports = NATIVE_IMPORTS
+    # C09 (averages are plain means): the half-maps handed back are the half averages themselves
+    only = {"C09": ["split_parameters", "halfmaps_returned"]}
+    replay = staticmethod(lambda ob, meta, model: _REPLAY_HALFMAPS)
     native_call = "args['self'].fsc_with_halfmaps(**{k: v for k, v in args.items() if k != 'self'})"
     native = {"split_parameters": "True", "masked_halves_correlated": "True", "shell_width": "True",
               "columns": "list(result.fsc.columns) == ['freq'] + ['FSC-%d' % i for i in range(n_set)]"}
@@ -142,11 +177,14 @@ class fsc_with_halfmaps:
                        "(dfreq if dfreq is not None else 1.5 / min(mask.shape)) for i in range(n_set))",
         "columns": "result.fsc.columns == ['freq'] + ['FSC-' + str(i) for i in range(n_set)] and "
                    "all(result.fsc['FSC-' + str(i)].arr is called('fourier_shell_correlation', i)[1] for i in range(n_set))",
-        "halfmaps_returned": "forall(lambda t, z, y, x: result.halfmaps[0][t, z, y, x] == called('average_split')[t, 0, z, y, x] and "
-                             "result.halfmaps[1][t, z, y, x] == called('average_split')[t, 1, z, y, x], "
+        # without mean subtraction the returned half-maps are the plain half averages as average_split computed them
+        # (not masked, not otherwise altered); with zero_norm they are those minus one common constant
+        "halfmaps_returned": "zero_norm or forall(lambda t, z, y, x: "
+                             "result.halfmaps[0][t, z, y, x] == as_returned(called('average_split'))[t, 0, z, y, x] and "
+                             "result.halfmaps[1][t, z, y, x] == as_returned(called('average_split'))[t, 1, z, y, x], "
                              "(0, n_set), (0, mask.shape[0]), (0, mask.shape[1]), (0, mask.shape[2]))",
     }
-    helpers = dict()
+    helpers = dict(as_returned=as_returned)
 
 
 def _halfmap_factory():
